@@ -15,8 +15,8 @@ TAGS = {
     "C06": {"control", "env", "result", "out", "value", "jump", "undef", "axcut", "callenv"},
     "C07": {"control", "env", "result", "out", "value", "jump", "undef", "axcut", "callenv"},
     "C08": {"control", "env", "result", "out", "value", "jump", "undef", "axcut", "agree"},
-    "C09": {"heap", "mem"},
-    "C10": {"footprint"},
+    "C09": {"heap", "mem", "leak"},
+    "C10": {"footprint", "leak"},
     "C13": {"align", "cc", "undef", "callenv"},
     "C14": {"encode", "asm"},
 }
